@@ -38,7 +38,7 @@ for p in $pkgs; do runargs="$runargs ./$p/"; done
 # 1. pristine: demo passes
 go test -vet=off -count=1 -timeout 20m -run 'TestSeedDemo' $runargs >>$log 2>&1 && pristine=pass || pristine=FAIL
 # 2. apply patch
-git apply $src/patch.diff >>$log 2>&1 || { res "patch-does-not-apply pristine-demo=$pristine"; exit 1; }
+P=$src/patch.diff; [ -f $src/patch.ported.diff ] && P=$src/patch.ported.diff; git apply $P >>$log 2>&1 || { res "patch-does-not-apply pristine-demo=$pristine"; exit 1; }
 go build ./... >>$log 2>&1 || { res "mutant-does-not-build"; exit 1; }
 go test -vet=off -count=1 -timeout 20m -run 'TestSeedDemo' $runargs >>$log 2>&1 && mutdemo=PASS || mutdemo=fail
 # 3. unedited suite with the mutant (demo removed)
